@@ -86,6 +86,13 @@ def make_inputs(ctx):
     ns = 7
     cats.append(dict(box=64.0, zkms=2048.0, nrows=ns, splits=[2, 3, 1, 1], halo=hs.gen_values(rng, hs.raw_schema(), ns, npout=2),
                      cleaned=hs.gen_values(rng, hs.cleaned_schema(), ns, npout=2), particles=False, kind='split-files'))
+    # a halo light-cone catalog: its interpolated columns are filled by one loader shared between pos_interp and vel_interp;
+    # half of the rows have no averaged position while their averaged velocity is set (and the other way round for one row)
+    nl = 6
+    lcv = hs.gen_values(rng, hs.lc_schema(), nl)
+    if 'vel_avg' in lcv and nl >= 3:
+        lcv['vel_avg'][2] = [0.0 for _ in lcv['vel_avg'][2]]
+    cats.append(dict(box=2000.0, zkms=96.0, nrows=nl, halo=lcv, cleaned=None, lc=True, particles=False, kind='lc'))
     derived = [c for c in user if deps.get(c)]
     loads = []
 
@@ -94,6 +101,20 @@ def make_inputs(ctx):
                       'subsamples': dict(subs) if subs else None})
 
     for ci in range(len(cats)):
+        if cats[ci].get('lc'):
+            lcn = ['N', 'index_halo', 'redshift_interp', 'N_interp', 'origin', 'x_L2com', 'v_L2com', 'r100_L2com', 'sigmav3d_L2com',
+                   'sigmavMid_L2com', 'r50_L2com']
+            outs = ['pos_interp', 'vel_interp']
+            add(ci, False, None, 'all')
+            add(ci, False, None, 'DEFAULT_FIELDS')
+            for c in outs:
+                add(ci, False, None, [c])
+            add(ci, False, None, outs)
+            add(ci, False, None, outs[::-1])
+            for c in rng.sample(lcn, min(6, len(lcn))):
+                add(ci, False, None, [c])
+                add(ci, False, None, [c] + outs)
+            continue
         if cats[ci].get('splits'):
             for cleaned in (False, True):
                 add(ci, cleaned, None, 'all')
@@ -226,6 +247,8 @@ def build_cases(ctx, cats, loads, res):
     NC = 2
     defs, terms, owners = [], [], []
     for ci, spec in enumerate(cats):
+        if spec.get('lc'):
+            continue          # the light-cone layout is judged by the metamorphic oracle only (its columns are not in the model)
         for row in range(spec['nrows']):
             for j in range(NC):
                 rawl, anyl = [], []
@@ -241,6 +264,8 @@ def build_cases(ctx, cats, loads, res):
                 defs.append(f'Definition any_{ci}_{row}_{j} : list rawcol := {coqio.lst(anyl)}.')
     for i, (ld, r) in enumerate(zip(loads, res)):
         spec = cats[ld['cat']]
+        if spec.get('lc'):
+            continue
         s = ld['subsamples'] or {}
         for row in range(spec['nrows']):
             for j in range(NC):
